@@ -12,9 +12,9 @@ open Sq Sq.Inv
 
 /-- one machine step, generically: under the configuration invariant with no mutator as a value and no compound assignment
     pending, every existing object other than the top scope dictionaries is unchanged -/
-theorem step_writes_only_top_scopes {Pc : List Op → Op → Nat → Prop} {Pb Pq : String → Prop} {Po : Op → Prop} {Pn : Name → Prop}
+theorem step_writes_only_top_scopes {Pc : List Op → Op → Nat → Prop} {Pb Pq : String → Prop} {Pr : Nat → Prop} {Po : Op → Prop} {Pn : Name → Prop}
     {Psh : Prop} (hok : OpsOK Pc Pb Po Pn Psh) (hb : ∀ n, Pb n → n ∉ mutatorNames) (hsh : ¬ Psh) (budgets : List Nat) (c : Core)
-    (hc : CorePDg Pc Pb Pq Po Pn Psh c) (a : Nat) (ha : a < c.w.heap.size) (hna : a ∉ topsOf c.w) :
+    (hc : CorePDg Pc Pb Pq Pr Po Pn Psh c) (a : Nat) (ha : a < c.w.heap.size) (hna : a ∉ topsOf c.w) :
     (stepCore budgets c).w.heap.get? a = c.w.heap.get? a :=
   (step_hp hok hb hsh budgets c hc).keep a ha hna
 
